@@ -106,6 +106,15 @@ Inductive rval := VUnit | VZ (z : Z) | VBytes (l : list Z) | VBool (b : bool) | 
 
 Definition START_NAME : list Z := [95; 115; 116; 97; 114; 116]. (* "_start" *)
 
+(* ---- C20: the constructor's randomised registers ----
+   Axecutor::new fills the 16 general registers and the 16 XMM registers from a thread RNG
+   (randomized_register_set / randomized_xmm_set); [rnd] / [rndx] stand for those values.  The
+   model used for the correspondence ([ax_new], registers 0) is the instance rnd = rndx = 0: the
+   harness overwrites all 32 registers before anything is compared. *)
+Definition seed_state (rnd rndx : reg -> Z) : mstate :=
+  set_xmms (set_regs empty_state (fun r => if is_gpr64 r then rnd r else regs empty_state r))
+           (fun r => if is_xmm r then rndx r else xmms empty_state r).
+
 Section Run.
   Variable decode : Z -> list Z -> option instr.
   Variable fd_oracle : mstate -> Z * Z.
@@ -129,10 +138,10 @@ Section Run.
   Definition unit_res := @lift_res unit (fun _ => VUnit).
   Definition z_res := @lift_res Z VZ.
 
-  Definition ax_new (code : list Z) (start rip : Z) : outcome rval * machine :=
+  (* Axecutor::new from a given register seed (the RNG values) *)
+  Definition ax_new_from (s0 : mstate) (code : list Z) (start rip : Z) : outcome rval * machine :=
     match add_chk c U64 start (zlen code) with
     | Ok ce =>
-        let s0 := empty_state in
         let s1 := set_code_end s0 ce in
         let s2 := set_regs s1 (upd (regs s1) RIP rip) in
         let s3 := set_call_stack s2 [rip] in
@@ -150,10 +159,11 @@ Section Run.
         | (Panic p, s6) => (Panic p, {| st := s6; henv := nil |})
         | (Fuel, s6) => (Fuel, {| st := s6; henv := nil |})
         end
-    | Err e => (Err e, {| st := empty_state; henv := nil |})
-    | Panic p => (Panic p, {| st := empty_state; henv := nil |})
-    | Fuel => (Fuel, {| st := empty_state; henv := nil |})
+    | Err e => (Err e, {| st := s0; henv := nil |})
+    | Panic p => (Panic p, {| st := s0; henv := nil |})
+    | Fuel => (Fuel, {| st := s0; henv := nil |})
     end.
+  Definition ax_new := ax_new_from empty_state.
 
   Fixpoint set_all (rs : list reg) (vals : list Z) (f : reg -> Z) : reg -> Z :=
     match rs, vals with
@@ -247,3 +257,4 @@ Section Run.
              end), m)
     end.
 End Run.
+
